@@ -6,6 +6,9 @@
 //!                 quantifier, `SeqWF`) with the input itself (S).
 //!   `de <bytes>`  arbitrary bytes through the real `Deserializer`; compare with M; a panic
 //!                 is an `impl-panic` (S: ops or one of the two documented errors).
+//!   `bin <old> <bytes>`  the repository's `dvitools normalize` binary (crates/dvi-bin) on a file with
+//!                 these bytes, written over a previous output of `old` bytes (0 = absent); the
+//!                 output file must be exactly serialise(varRemove(deserialise(bytes))) (Lean).
 //!   `vr <ops>`    the real `VarRemover`; compare with M; S = the Lean tracker `positions`
 //!                 evaluated on the *real* output, plus no-vars and others-unchanged.
 //!
@@ -253,6 +256,28 @@ fn diff_sig(a: &[Op], b: &[Op]) -> String {
 
 struct C16 {
     max_len: usize,
+    /// path of the repository's `dvitools` binary, built on first use (None = build failed)
+    dvitools: Option<Option<String>>,
+    repo: String,
+    verif: String,
+}
+
+/// Build the repository's own `dvitools` binary (crates/dvi-bin) from the tree under test.
+fn build_dvitools(repo: &str, verif: &str) -> Option<String> {
+    let target = format!("{verif}/.work/repo-bins-{:x}", fxhash(repo));
+    let st = std::process::Command::new("cargo")
+        .args(["build", "--offline", "-q", "-p", "dvi-bin", "--bin", "dvitools", "--manifest-path"])
+        .arg(format!("{repo}/Cargo.toml"))
+        .env("CARGO_TARGET_DIR", &target)
+        .env("CARGO_NET_OFFLINE", "true")
+        .stdout(std::process::Stdio::null())
+        .stderr(std::process::Stdio::null())
+        .status()
+        .ok()?;
+    if !st.success() {
+        return None;
+    }
+    Some(format!("{target}/debug/dvitools"))
 }
 
 impl C16 {
@@ -396,6 +421,23 @@ impl Property for C16 {
             v.push(format!("rt {}", join(&enc_ops(&[Op::Extension(vec![7; n]), Op::Pop]))));
         }
         v.push("vr 7 9 0 5 5 9 2 3 0 65 1 6 8 0 0 66 0".into());
+        // very deep push nesting (the postamble's max_stack_depth is a u16; the stack is not)
+        for depth in [65535usize, 65536, 65537] {
+            let mut ops = vec![Op::BeginPage { parameters: [0; 10], previous_begin_page: -1 }];
+            ops.extend(std::iter::repeat(Op::Push).take(depth));
+            ops.extend([Op::SetVar(Var::W, 7), Op::Push, Op::SetVar(Var::W, 9), Op::Pop, Op::Move(Var::W),
+                        Op::TypesetChar { char: 65, move_h: true }, Op::Pop, Op::Pop, Op::Move(Var::W),
+                        Op::TypesetChar { char: 66, move_h: false }]);
+            v.push(format!("vr {}", join(&enc_ops(&ops))));
+        }
+        // the dvitools binary: normalize into a fresh path, over a shorter and over a longer old file
+        for old in [0usize, 3, 4000] {
+            v.push(format!("bin {old} {}", join(&dvi::serialize(vec![
+                Op::BeginPage { parameters: [1, 0, 0, 0, 0, 0, 0, 0, 0, 0], previous_begin_page: -1 },
+                Op::SetVar(Var::W, 5), Op::Push, Op::SetVar(Var::Y, -3), Op::TypesetChar { char: 65, move_h: true },
+                Op::Pop, Op::Move(Var::W), Op::TypesetChar { char: 66, move_h: false }, Op::EndPage,
+            ]))));
+        }
         v
     }
     fn generate(&mut self, ctx: &Ctx, rng: &mut Rng) -> Vec<String> {
@@ -449,6 +491,21 @@ impl Property for C16 {
                     .collect()
             };
             v.push(format!("de {}", join(&bytes)));
+        }
+        // `dvitools normalize` (crates/dvi-bin): valid streams, sometimes truncated/mutated, written
+        // over an absent, shorter or longer previous output file
+        let n_bin = if ctx.thorough { 600 } else { 60 };
+        let mut r = rng.fork();
+        for _ in 0..n_bin {
+            let n = 1 + r.below(40) as usize;
+            let ops: Vec<Op> = (0..n).map(|_| Self::gen_op(&mut r, true)).collect();
+            let mut b = dvi::serialize(ops);
+            if r.chance(1, 6) && !b.is_empty() {
+                let k = r.below(b.len() as u64) as usize;
+                b.truncate(k + 1);
+            }
+            let old = *r.pick(&[0usize, 0, 1, 7, 100, 5000]);
+            v.push(format!("bin {old} {}", join(&b)));
         }
         let mut r = rng.fork();
         for _ in 0..n_vr {
@@ -531,6 +588,57 @@ impl Property for C16 {
                         }
                     }
                 }
+                out
+            }
+            "bin" => {
+                let (old, bytes_s) = rest.split_once(' ').unwrap_or((rest, ""));
+                let old: usize = old.parse().unwrap_or(0);
+                let bytes: Vec<u8> = parse_i64s(bytes_s).into_iter().map(|x| x as u8).collect();
+                out.nontrivial = bytes.len() >= 2;
+                if self.dvitools.is_none() {
+                    self.dvitools = Some(build_dvitools(&self.repo, &self.verif));
+                }
+                let Some(Some(exe)) = self.dvitools.clone() else {
+                    out.fail(Kind::ImplVsModel, "bin", "dvitools does not build", "cargo build -p dvi-bin --bin dvitools failed".to_string());
+                    return out;
+                };
+                let dir = format!("{}/.work/c16-bin-{}", self.verif, std::process::id());
+                let _ = std::fs::create_dir_all(&dir);
+                let (inp, outp) = (format!("{dir}/in.dvi"), format!("{dir}/out.dvi"));
+                std::fs::write(&inp, &bytes).unwrap();
+                let _ = std::fs::remove_file(&outp);
+                if old > 0 {
+                    // a previous, unrelated output of `old` bytes (valid DVI no-ops)
+                    std::fs::write(&outp, vec![138u8; old]).unwrap();
+                }
+                let st = std::process::Command::new(&exe).args(["normalize", &inp, &outp])
+                    .stdout(std::process::Stdio::null()).stderr(std::process::Stdio::null()).status();
+                let m = drv.ask(&format!("nz {}", join(&bytes)));
+                out.tag(format!("bin:old={}", if old == 0 { "absent" } else if old < 50 { "shorter" } else { "longer" }));
+                match (st, m.strip_prefix("ok")) {
+                    (Ok(st), Some(want)) => {
+                        out.tag("bin:ok");
+                        let got = std::fs::read(&outp).unwrap_or_default();
+                        if !st.success() {
+                            out.fail(Kind::ImplVsSpec, "bin", "dvitools normalize fails on a valid stream", format!("exit {st:?}"));
+                        } else if join(&got) != want.trim() {
+                            let sig = if got.len() > want.split_whitespace().count() && join(&got).starts_with(want.trim()) {
+                                "dvitools normalize: stale bytes after the normalized stream"
+                            } else {
+                                "dvitools normalize: output file differs"
+                            };
+                            out.fail(Kind::ImplVsSpec, "bin", sig, format!("file: {}\nwant: {}", join(&got), want.trim()));
+                        }
+                    }
+                    (Ok(st), None) => {
+                        out.tag("bin:invalid-input");
+                        if st.success() {
+                            out.fail(Kind::ImplVsModel, "bin", "dvitools normalize accepts invalid data", m.clone());
+                        }
+                    }
+                    (Err(e), _) => out.fail(Kind::ImplVsModel, "bin", "dvitools cannot be run", e.to_string()),
+                }
+                let _ = std::fs::remove_dir_all(&dir);
                 out
             }
             _ => panic!("bad case {case}"),
@@ -641,5 +749,6 @@ impl C16 {
 }
 
 fn main() {
-    run(C16 { max_len: 200 });
+    let a = parse_args();
+    run(C16 { max_len: 200, dvitools: None, repo: a.repo, verif: a.verif });
 }
